@@ -227,3 +227,62 @@ Proof. by move=> hi; case: (inv_iter rhs k) => _ _ _ _; apply. Qed.
 
 End Fixed.
 End Residual.
+
+(* ---------------------------------------------------------------------------------------- *)
+(* the same statement about the tensor minres RETURNS (after the stopping rule, the zero mask and the
+   un-normalisation): for a column that is not a "zero" column, with k = the number of loop bodies executed,
+      b - (value*K + s I) x_returned  =  ||b|| * scale_prev_k * pbar_k                                   *)
+Section Output.
+Variable R : rcfType.
+Variable S : mr_settings R.
+Variable g : mr_args R.
+Variable M : nat -> nat -> nat -> R.
+Notation AR := (ArR R).
+Hypothesis no_pre : g_pre g = None.
+Hypothesis eps_pos : 0 < g_eps g.
+Hypothesis thr_pos : 0 < s_zero_thr S.
+Hypothesis mm_lin : forall X j i, (j < size (g_rhs g))%N -> (i < g_n g)%N ->
+  cg2 AR (g_mm g X) j i = \sum_(l < g_n g) M j i l * cg2 AR X j l.
+
+Let u := mr_prepare AR S g.
+Let C := size (g_rhs g).
+Let Q := shifts_Q g.
+Let n := g_n g.
+Notation iter k := (st_iter AR Q C n (g_mm g) (fun X => X) (g_value g) (shifts_tab AR g) (g_eps g) k
+                            (st_init AR Q C n (fun X => X) (u_rhs u))).
+
+Theorem minres_output_residual q j i :
+  (q < Q)%N -> (j < C)%N -> (i < n)%N -> ~~ rhs_col_is_zero AR S g j ->
+  let o := minres AR S g in
+  let k := o_iters o in
+  (k <= u_iters u)%N /\
+  cg2 AR (g_rhs g) j i
+    - As n (g_value g) (shifts_tab AR g) M q j (fun l => xget AR (o_sol o) q j l) i
+  = sget AR (u_rhs_norm u) j
+    * (qget AR (scp (iter k)) q j * pbar Q C n (g_mm g) (g_value g) (shifts_tab AR g) (g_eps g) q j (u_rhs u) k i).
+Proof.
+move=> hq hj hi hnz.
+have [m1 m2 m3 m4] := prepare_misc AR S g.
+have hpre : u_pre u = (fun X => X) by rewrite /u m3 no_pre.
+rewrite /minres -/u hpre m1 m2 -/C -/Q -/n.
+have [k [hk -> _ _]] := st_loop_spec AR Q C n (g_mm g) (fun X => X) (g_value g) (shifts_tab AR g) (g_eps g)
+                          (s_minres_tolerance S) (u_iters u) 0
+                          (st_init AR Q C n (fun X => X) (u_rhs u)).
+rewrite add0n [o_iters _]/=; split=> //.
+set x := fun l => xget AR (sol (iter k)) q j l.
+set N := sget AR (u_rhs_norm u) j.
+have hN : N = norm2 AR n (cget (g_rhs g) j) by rewrite /N /u prepare_norm // (negbTE hnz).
+have hN0 : N != 0.
+  rewrite hN gt_eqF //; apply: lt_le_trans thr_pos _.
+  by move: hnz; rewrite /rhs_col_is_zero /= -leNgt.
+have hout : forall l, (l < n)%N -> xget AR (o_sol (mr_finish AR g u (sol (iter k)) k)) q j l = N * x l + 0 * x l.
+  move=> l hl; rewrite finish_get ?m1 ?m2 // prepare_is_zero // (negbTE hnz) -/N -/(x l).
+  rewrite [amul _ _ _]/=; ring.
+rewrite (As_ext (g_value g) (shifts_tab AR g) M q j hi hout) As_lin mul0r addr0.
+have hb : cg2 AR (g_rhs g) j i = N * cg2 AR (u_rhs u) j i.
+  by rewrite /u prepare_rhs cg2_ctab //= -/u -/N mulrC divfK.
+have := minres_true_residual (g_value g) (shifts_tab AR g) eps_pos mm_lin hq hj (u_rhs u) k hi.
+rewrite -/x => <-; rewrite hb -/n; ring.
+Qed.
+
+End Output.
